@@ -374,7 +374,6 @@ func (m *Map[K, V]) Range(f func(key K, value V) bool) {
 	}
 
 	for k, e := range read.m {
-		verifYield("RG3")
 		v, ok := e.load()
 		if !ok {
 			continue
